@@ -35,4 +35,8 @@ def jobs(tier):
                  stubs=["send / receive rule evaluators, SELinux / AppArmor hooks, pending-reply table, queue sizes = symbolic answers with ghost log"],
                  bounds="one message (symbolic header record, type 1..5) with sender / addressed recipient / proposed recipient each present or not, every callee answer symbolic, limits full width",
                  shape="policy gate"))
+    # C06.g: a reload rebuilds the policies of existing connections from the NEW policy (call-order skeleton of process_config_every_time)
+    J.append(Job(name="g.reload_order", group="C06.g", harness="harness/C06_reload.c", real=["dbus/dbus-list.c"], env=["assert_stubs.c", "pool_lock.c", "mem.c"], checks="assert", unwind=4, timeout=300,
+                 extra=["--object-bits", "11"], encodes=["process_config_every_time"], stubs=["parser, activation, server address, strings = outcome stubs; the k-th fallible call fails (k symbolic 0..9)"],
+                 bounds="start-up or reload, 0 or 1 listening server, any single failing step", shape="configuration (re)load"))
     return J
